@@ -121,7 +121,11 @@ def gen_select(rng, features):
     if 'group' in features and rng.random() < 0.25 and targets != '*':
         sql = sql.replace(f'select {targets}', f'select {aliases[0]}.a, count(*)') + f' group by {aliases[0]}.a'
     if 'order' in features and rng.random() < 0.4:
-        sql += f' order by {aliases[0]}.{rng.choice(COLS)}' + rng.choice(['', ' desc'])
+        # keys of every kind: a column of any of the tables, an expression, a function call, a position, several keys
+        a_ = rng.choice(aliases)
+        key = rng.choice([f'{aliases[0]}.{rng.choice(COLS)}', f'{a_}.{rng.choice(COLS)}', f'{a_}.a + 1', f'lower({a_}.b)', '1',
+                          f'{a_}.a, {aliases[0]}.b desc', f'coalesce({a_}.c, 0)', f'{a_}.a * -1'])
+        sql += f' order by {key}' + rng.choice(['', ' desc'])
     if 'limit' in features and rng.random() < 0.4:
         sql += f' limit {rng.randint(1, 3)}'
         if rng.random() < 0.3:
@@ -213,6 +217,8 @@ EDGE_STATEMENTS = [
     "delete from int1.t1 where int1.t1.a = 1", "delete from int1.t1 where t1.a = 1 and int1.t1.b in (select b from int2.t2)",
     "create table int2.copy1 as select * from int1.t1 join int3.t3 on t1.a = t3.a",
     # an outer select that runs over a fetched frame and has sub-selects of its own
+    "select * from int1.t1 as a left join int2.t2 as b on a.a = b.a order by lower(a.b) limit 5", "select * from int1.t1 as a join int2.t2 as b on a.a = b.a order by a.a + 1",
+    "select * from int1.t1 as a join int2.t2 as b on a.a = b.a order by 1", "select * from int1.t1 as a join proj.pred as m order by abs(a.a) desc limit 2",
     "select * from (select * from int1.t1) as x where x.a in (select b from int2.t2)",
     "select x.a, (select max(b) from int2.t2) as m from (select * from int1.t1) as x",
     "select * from (select * from int1.t1) as x where x.a in (select b from int2.t2) and x.b > (select min(b) from int3.t3)",
